@@ -35,6 +35,13 @@ def diagnose (c : Kan.Case) (k : KState) (down : List String) : String :=
   match runHist false (isLoop c.hist) false c.hist { k } with
   | .error e => s!"model: crash {crashName e}"
   | .ok r =>
+    -- a recorded finding is a defect of the code as modelled: the model must end in the same
+    -- stuck OS state. If the model lets go of what the implementation keeps down, this is something else.
+    let mitems := parseTrace (((finish r false).splitOn " ").filter (· ≠ "")) []
+    let mdown := mitems.foldl (fun d it => it.evs.foldl applyAll d) ([] : List String)
+    if !(down.all mdown.contains && mdown.all down.contains) then
+      s!"model: does-not-reproduce (the model ends with {mdown} down at the OS)"
+    else
     let k := r.k
     let hasCustom := k.layout.states.any fun s => match s with | .custom .. => true | _ => false
     let stale := (k.unmoddedKeys ++ k.unshiftedKeys).map toString
